@@ -67,6 +67,10 @@ def cases(tier, seed, focus=None):
             case["chunk"] = r2.choice(["R-1", "R-1", "R-2", 4, 5])
             case["inputs_as"] = r2.choice(["iter", "gen", "list", "tuple"])
             case["pre"] = r2.choice(["none", "some", "all", "zeros"])
+        if i % 5 == 2:  # a leaf parameter listed among the tensors to differentiate (inputs are always explicit here)
+            case["leaf_out"] = {"src": r2.randrange(8), "pos": r2.randrange(4)}
+            if r2.random() < 0.5:
+                case["inputs"] = "all"
         yield case
     # LARGE Jacobians (millions of parameter scalars, 2 rows): size thresholds, "memory optimisations", per-input shortcuts
     rl = random.Random(1002000 + seed)
@@ -106,6 +110,15 @@ def _add_zero_outputs(prog, zero_out):
             e = e.reshape(2, 0)
         prog.outputs.insert(z["pos"] % (len(prog.outputs) + 1), e)
         prog.desc.append(f"ZERO{z['shape']}@{z['pos']}")
+
+
+def _add_leaf_output(prog, leaf_out):
+    """Lists a LEAF that requires grad among the outputs (same construction on both twins): its rows of the Jacobian are identity
+    rows w.r.t. itself, on top of what the other outputs contribute to it."""
+    if leaf_out:
+        x = prog.grad_leaves[leaf_out["src"] % len(prog.grad_leaves)]
+        prog.outputs.insert(leaf_out["pos"] % (len(prog.outputs) + 1), x)
+        prog.desc.append(f"LEAFOUT{leaf_out['src']}@{leaf_out['pos']}")
 
 
 def _present(inputs, how):
@@ -179,6 +192,8 @@ def _run_case(case):
     _scale_outputs(p2, case.get("out_scales"))
     _add_zero_outputs(p1, case.get("zero_out"))
     _add_zero_outputs(p2, case.get("zero_out"))
+    _add_leaf_output(p1, case.get("leaf_out"))
+    _add_leaf_output(p2, case.get("leaf_out"))
     m = n_rows(p1.outputs)
     dtype = p1.outputs[0].dtype
     agg = make_agg(case["agg"], m, dtype)
